@@ -1,2 +1,3 @@
 import CbOblig.C04
 import CbOblig.C02
+import CbOblig.C20
